@@ -92,7 +92,7 @@ LEVEL = {
             'note': _TB + 'A read-only destination directory cannot be exercised as root and is not part of the matrix.'},
     'C18': {'text': 'Theorems: view emits one record per slot of each selected series with instant from+k*step and the k-th fetched value, archive then time order; '
                     'view-raw shows a physical slot iff it lies in the requested range; for any slot contents a non-NaN fetched value is a physical slot with exactly the fetched instant, and a non-NaN point printed by view '
-                    'inside the requested range is among view-raw\'s records (sorted or not).',
+                    'inside the requested range is among view-raw\'s records (sorted or not); the -header switch only adds the header record (C18_header_switch_only_adds_the_header, ..._raw).',
             'design_ref': '5 C18',
             'note': _TB + 'Shortest-decimal float formatting is Go\'s own: printed values are parsed back with strconv.ParseFloat before comparison.'},
     'C20': {'text': 'Theorems: generate refuses an existing file, the header is the requested one, without fill every slot is empty; END TO END (C20_file_is_the_generated_lists): for every '
